@@ -164,7 +164,33 @@ def classify(subpaths, style, pts, delta=DELTA):
                     else:
                         across = rel @ np.asarray([-Tn[1], Tn[0]])
                         inside |= (along >= 0) & (along < rin) & (np.abs(across) < rin)
-    bound = half * max(1.0, ml if join == "miter" else 1.0, math.sqrt(2) if cap == "square" else 1.0) + delta
+    # farthest the stroke can reach from the path: w/2, sqrt(2) w/2 at square caps, and at a miter join
+    # (w/2)/sin(theta/2) - but only where that ratio does not exceed the miter limit (otherwise the join is a bevel)
+    reach = math.sqrt(2) if cap == "square" else 1.0
+    if join == "miter":
+        for sp in subpaths:
+            P = list(sp["pts"])
+            cn = list(sp["corner"])
+            m = len(P)
+            if m < 3:
+                continue
+            idxs = range(m) if sp["closed"] else range(1, m - 1)
+            for i in idxs:
+                if not cn[i]:
+                    continue
+                a, b, c = P[i - 1], P[i], P[(i + 1) % m]
+                u = (a[0] - b[0], a[1] - b[1])
+                v = (c[0] - b[0], c[1] - b[1])
+                lu, lv = math.hypot(*u), math.hypot(*v)
+                if lu == 0 or lv == 0:
+                    reach = max(reach, ml)
+                    continue
+                cosang = max(-1.0, min(1.0, (u[0] * v[0] + u[1] * v[1]) / (lu * lv)))
+                half_ang = math.acos(cosang) / 2.0
+                ratio = 1.0 / math.sin(half_ang) if half_ang > 1e-9 else float("inf")
+                if ratio <= ml * 1.02:
+                    reach = max(reach, ratio)
+    bound = half * max(1.0, reach) + delta
     if out_pieces:
         dmin, _ = _dist_segments(pts, out_pieces)
     else:
